@@ -9,7 +9,7 @@ INFO = {
     'explanation': (
         'Symbolic execution of the real rate / predict_win / predict_draw / predict_rank (sx engine, mode R) in which every arithmetic '
         'exception CPython could raise is a guarded path outcome: division by zero, square root of a negative, exp() overflow (argument above '
-        '709.78), inverse-CDF domain error. Float underflow to zero is modelled too: exp, Phi and phi are only known to be positive above their underflow thresholds (-745, -38.4, |x| < 38.5), so a division by one of them needs either a proved bound on its argument or a guard on the computed value in the path condition. Over the exact domain of the property (mu in [-20b, 20b], sigma in '
+        '709.78), inverse-CDF domain error. Cancellation is modelled: a divisor computed as A - B with A, B >= 0 counts as zero as soon as |A - B| <= 2^-54 (A + B). Float underflow to zero is modelled too: exp, Phi and phi are only known to be positive above their underflow thresholds (-745, -38.4, |x| < 38.5), so a division by one of them needs either a proved bound on its argument or a guard on the computed value in the path condition. Over the exact domain of the property (mu in [-20b, 20b], sigma in '
         '[1e-4 b, 10 b] or sigma = 0 with tau > 0, 0 <= tau <= 10 b, kappa in (0, 1e-2], any beta > 0 - the rescaling is a symbolic beta) z3 must '
         'refute the bad side of every guard, first on the cone of influence of its operands with their proved range lemmas, then on the full path. '
         'A guard that cannot be refuted is an open obligation: its model is replayed on the real float code, which must raise or return a '
@@ -92,7 +92,7 @@ def run_job(spec, ctx):
     def draw(rng):
         e = (H.draw_fn(shape) if rate else PR.pred_draw(shape))(rng)
         return e
-    opts = {'deadline': ctx.deadline, 'guards': 'record', 'guard_timeout': 10000 if spec.get('budget', 600) <= 1200 else 30000, 'branch_timeout': 8000, 'underflow': True, 'no_t1': sum(shape) > 4}
+    opts = {'deadline': ctx.deadline, 'guards': 'record', 'guard_timeout': 10000 if spec.get('budget', 600) <= 1200 else 30000, 'branch_timeout': 8000, 'underflow': True, 'absorption': True, 'no_t1': sum(shape) > 4}
     nguards = 0
     for (kind, out), eng in core.iter_paths(run, base, draw, opts=opts):
         ctx.paths += 1
@@ -125,18 +125,20 @@ def run_job(spec, ctx):
         if discharged and len(ctx.samples) < 3:
             ctx.samples.append({'model': key, 'op': op, 'shape': list(shape), 'guards_refuted_on_this_path': discharged,
                                 'path_condition': [str(c)[:100] for c in eng.pc][:4]})
+        still_open = 0
         for (what, cond, r_) in eng.open_guards:
-            r, m = eng.check(cond, timeout=10000 if spec.get('budget', 600) <= 1200 else 30000)
+            r, m = eng.check(cond, timeout=20000 if spec.get('budget', 600) <= 1200 else 60000)
             if r == 'unsat':
                 ctx.ob(f'{op}: guard {what}', 'unsat')
                 continue
+            still_open += 1
             cands = []
             if r == 'sat':
                 cands = [{'spec': spec, 'inputs': inp} for inp in H.witness_models(eng, cond, names, H.nice_pins(shape) if rate else ())]
                 H.mark_last(cands)
             ctx.ob(f'{op}: guard {what} cannot be refuted: {str(cond)[:160]}', 'sat' if cands else 'unknown', cands or None)
         # results are defined terms; "finite" = defined and no modelled overflow
-        ctx.ob(f'{op}: path returns normally with every guard refuted', 'unsat' if not eng.open_guards else 'unknown',
+        ctx.ob(f'{op}: path returns normally with every guard refuted', 'unsat' if not still_open else 'unknown',
                sample={'model': key, 'op': op, 'shape': list(shape), 'ranks': spec['ranks'], 'guards_refuted': discharged})
         ctx.add_engine(eng)
     ctx.notes.append(f'{nguards} guard obligations refuted')
